@@ -366,6 +366,13 @@ def monitor(case, lines):
         return "more chunks consumed than written"
     if ended == 0 and "drain" in case:
         rest = [d for rc, d in drained if rc >= 0]
+        fin = [l.split() for l in lines if l.startswith("fin ")]
+        blocking = any(c[-1] == "1" for c in rprog if c[1] in ("read", "peek"))
+        if fin and int(fin[0][3]) >= 0 and not any(c[1] == "peek" for c in rprog + [["r"] + x[1:] for x in pre_script if x[0] == "r"]):
+            # no peek in the reader's program: every token taken was either used to consume a chunk or given back
+            if int(fin[0][3]) < len(rest):
+                return ("semaphore count %s but %d published chunks are unread: a reader waiting on the semaphore would "
+                        "never be woken for them" % (fin[0][3], len(rest)))
         if not drained or drained[-1][0] >= 0:
             return "draining the ring did not terminate"
         if not any(wrote[c:] == rest for c in possible):
